@@ -17,6 +17,24 @@ CLAIMED = {
             "DESIGN.md §4 C12"),
 }
 
+CLAIMED.update({
+    "C02": ("who-may-call (VTA call graph) + guard dominance with invalidation + path-sensitive all-elements-flag search + forward provenance over go/ssa",
+            "Structural necessary conditions of the ordering decided for all programs and schedules at once, because they are facts about the scheduler's code: exact caller sets of the submission chain, "
+            "phase guards in stepStage, the all-chunks-complete flag, the waiting rule of Node.getState, dependency sources (inputs, disabled condition, return bindings, fork roots) flowing into the prenode/postnode sets, preflight prenodes incl. recursion into sub-pipelines.",
+            "Not decided: that FindRefs returns every reference (value-level recursion), state derivation from real files, job manager internals. Trusts go/ssa and the VTA call graph.",
+            "DESIGN.md §4 C02"),
+    "C03": ("guard dominance + must-pass-through + who-may-call over go/ssa; disjunctive at-most-once rule",
+            "Structural necessary conditions: at-most-once submission (flag test-and-set OR synchronous _jobinfo record before execJob), disabled test before any submission/completion, "
+            "empty/null mapped collections reach writeDisable, zero-length range reports disabled, skip() only for preflights under SkipPreflight.",
+            "Not decided: one fork per element/key (run-time counts), liveness (no job skipped). The at-most-once rule is a disjunction on purpose: removing one of the two redundant mechanisms keeps behaviour and must not alarm.",
+            "DESIGN.md §4 C03"),
+    "C06": ("guard dominance + must-pass-through + phi-web analysis + who-may-call over go/ssa (core, cmd/mrjob, cmd/mrp)",
+            "Structural necessary conditions: failure markers take precedence in the state function; the monitor writes _complete only on success and always records a failure; the local job manager reports failed processes; "
+            "every fork-level _complete is dominated by output validation; join only after all chunk outputs were read and verified; failed nodes release nobody; success exit status only from the completed-cleanup path.",
+            "Not decided: error text naming the stage, retry classification regexes, the Python adapter, restart behaviour after the fault is removed.",
+            "DESIGN.md §4 C06"),
+})
+
 NOT_APPLICABLE = {
     "C01": "Equality of delivered argument values with the denotation of binding expressions quantifies over run-time JSON values and fork matching for all programs; no clause is a fact about the shape of the code, so any static rule would be a proxy, not a necessary condition.",
     "C13": "Materialisation of files under outs/ and the rewritten _outs are file-system effects and hand-assembled JSON values; the only structural candidate (bracket pairing of the JSON writers) does not imply validity and is exercised by the existing golden tests.",
